@@ -57,6 +57,7 @@ impl<A: Ord + Clone> CmRDT for PNCounter<A> {
     closed spec fn cm_inv(&self) -> bool { self.p.cm_inv() && self.n.cm_inv() }
     open spec fn cm_pre(&self, op: &Op<A>) -> bool { true }
     open spec fn cm_post(old_: &Self, op: &Op<A>, new_: &Self) -> bool { true }
+    open spec fn cm_vpre(&self, op: &Op<A>) -> bool { true }
 
 //@extract fn src/pncounter.rs "CmRDT for PNCounter" validate_op
     fn validate_op(&self, op: &Self::Op) -> /*@ (r: @*/ Result<(), Self::Validation> /*@ ) @*/
